@@ -1041,8 +1041,14 @@ fn add_defaults(rng: &mut Rng, sw: &Swarm, schema: &mut Value, defs: &Defs, top:
             if k == "type" || k == "t" || k == "c" {
                 continue;
             }
-            if !req.contains(k) && if sw.dense_defaults { rng.chance(4, 5) } else { rng.chance(2, 5) } {
-                let invalid = sw.defaults == 2 && rng.chance(1, 4);
+            // enum-typed properties are rarer than scalar ones and have many more ways
+            // of being wrong: they get defaults (and invalid ones) more often
+            let is_enum = {
+                let d = deref_schema(p, defs, 0);
+                d.get("oneOf").is_some() || d.get("anyOf").is_some()
+            };
+            if !req.contains(k) && if sw.dense_defaults || is_enum { rng.chance(4, 5) } else { rng.chance(2, 5) } {
+                let invalid = sw.defaults == 2 && if is_enum { rng.chance(1, 2) } else { rng.chance(1, 4) };
                 let v = if invalid {
                     gen_invalid_instance(rng, p, defs)
                 } else {
